@@ -11,12 +11,15 @@ LEVEL = "exploration"
 BUILDS = {
     "stable-debug": dict(tc=None, release=False, flags=""),
     "nightly-release-rl": dict(tc="nightly", release=True, flags="-Zrandomize-layout -Zlayout-seed=%d"),
+    # the library's `rust_void` feature: the erased type is () (zero-sized) instead of a one-byte type; both modules of a pair use the same setting
+    "stable-debug-rustvoid": dict(tc=None, release=False, flags="", feat="xapi/rust_void"),
     "1.98.1-release": dict(tc="1.98.1", release=True, flags=""),
     "nightly-2026-08-21-debug-rl": dict(tc="nightly-2026-08-21", release=False, flags="-Zrandomize-layout -Zlayout-seed=%d"),
     "stable-release": dict(tc=None, release=True, flags=""),
     "nightly-debug": dict(tc="nightly", release=False, flags=""),
     "1.98.1-debug": dict(tc="1.98.1", release=False, flags=""),
     "nightly-2026-08-21-release": dict(tc="nightly-2026-08-21", release=True, flags=""),
+    "nightly-release-rustvoid": dict(tc="nightly", release=True, flags="", feat="xapi/rust_void"),
 }
 
 
@@ -25,7 +28,7 @@ def build(name, seed):
     xdir = os.path.join(VERIF, "xmod")
     common.sync_lock(xdir)
     tdir = os.path.join(WORK, "target-xmod-" + name)
-    cmd = ["cargo"] + (["+" + b["tc"]] if b["tc"] else []) + ["build", "--offline", "--target-dir", tdir] + (["--release"] if b["release"] else [])
+    cmd = ["cargo"] + (["+" + b["tc"]] if b["tc"] else []) + ["build", "--offline", "--target-dir", tdir] + (["--release"] if b["release"] else []) + (["--features", b["feat"]] if b.get("feat") else [])
     flags = (b["flags"] % (seed % 1000)) if "%d" in b["flags"] else b["flags"]
     env = {"XMOD_RUSTC": (b["tc"] or "stable") + ("-release" if b["release"] else "-debug") + (" " + flags if flags else "")}
     if flags:
@@ -40,7 +43,7 @@ def build(name, seed):
 
 def run(chk, replay=None):
     q = chk.tier == "quick"
-    names = list(BUILDS)[:2] if q else list(BUILDS)
+    names = list(BUILDS)[:3] if q else list(BUILDS)
     built = {}
     errs = []
 
@@ -52,7 +55,8 @@ def run(chk, replay=None):
     rtrun.run_many(chk, [lambda n=n: one(n) for n in names], workers=4)
     for e in errs:
         chk.incon(e[:1500])
-    pairs = [(h, p) for h in built for p in built if (h != p or not q)]
+    rv = lambda n: "rustvoid" in n
+    pairs = [(h, p) for h in built for p in built if rv(h) == rv(p) and (h != p or not q or rv(h))]
     jobs = []
     for h, p in pairs:
         part = "host[%s] x plugin[%s]" % (h, p)
@@ -66,7 +70,7 @@ def run(chk, replay=None):
                             "iterator/struct/Option/int-result; plugin-made CVec grown, written and released by the host and host-made CVec consumed by the plugin; host-made store consumed by "
                             "the plugin; every digest compared with the same history on objects made inside the host; both allocators must see no foreign or mis-sized free, the plugin no "
                             "leftover instance; a plugin-made object that is the only holder of its context is consumed by a by-value call: the context must die in the caller's frame, not under "
-                            "the other module's wrapper (backtrace of the payload's Drop). Pairs drawn from {stable 1.95, nightly 1.97, 1.98.1, nightly-2026-08-21} x {debug, release} x randomized repr(Rust) layout. evaluations = histories")
+                            "the other module's wrapper (backtrace of the payload's Drop). Pairs drawn from {stable 1.95, nightly 1.97, 1.98.1, nightly-2026-08-21} x {debug, release} x randomized repr(Rust) layout, plus pairs built with the library's rust_void feature (erased type is zero-sized). evaluations = histories")
     chk.part("matrix", builds=sorted(built), ordered_pairs=len(pairs))
     chk.floor("module pairs", len(pairs), 2)
     chk.floor("histories", hist, 200)
